@@ -92,6 +92,11 @@ def run_scenario(sc, variant, round_tag=""):
 
 def main():
     job = json.load(sys.stdin)
+    gw = ((job.get("variant") or {}).get("vclock") or {}).get("global_wall")
+    if gw is not None:
+        # the process-wide wall clock frozen BEFORE the engine is imported: everything that captured time.time at import or
+        # as a default argument (the TTL caches) runs on it too
+        time.time = (lambda _t=float(gw): _t)
     from vlib import bootstrap
 
     bootstrap.init()
